@@ -30,10 +30,11 @@ CLAIM = dict(
     "hard-coded centre layout is the base coordinate system; voxel centre = floor), corners_centres_agree_of_dvd, and the negative "
     "witness corners_voxel_physical_disagree_witness (n does not divide N; known finding). Round 2: patch_metadata (patch (i,j) as an IMAGE = the C02 sub-image theorem at rois[i][j]: "
     "shape, coordinates of every voxel position, voxel size, time/payload flags, and the pixel array entry by entry, scalar and vector payload), patches_refuse_3d_and_series, "
-    "interiors_cover_once (counting form: every pixel in exactly one interior), blend_and_assemble_unusable (negative: the method raises on every call; known finding) with the "
+    "interiors_cover_once (counting form: every pixel in exactly one interior), position_classifies, patch_order (tables enumerate every patch once, rows outer), "
+    "ov_ceil_bridge (float bridge for the overlap; the quotient's measured relative error and the breakpoint cases are recorded in the evidence), blend_and_assemble_unusable (negative: the method raises on every call; known finding) with the "
     "specification blend_spec_partial (partition-of-unity weights reproduce the image; interior indicators are such weights) - the blending weights of the code are NOT modelled because the code cannot run. Tie: differential correspondence of every "
     "public table of Patches with the model (exact on dyadic geometries) + oracle on the implementation.",
-    note="blend_and_assemble raises AttributeError on every call (known finding; only a specification is proved); 3-D and space-time patches raise NotImplementedError in the code (modelled, error class tied); "
+    note="set_image followed by assemble() is checked by the oracle only (no theorem); blend_and_assemble raises AttributeError on every call (known finding; only a specification is proved); 3-D and space-time patches raise NotImplementedError in the code (modelled, error class tied); "
     "on general (non-dyadic) geometries the overlap in voxels is read from the implementation and only checked to be one of the two "
     "admissible roundings of the exact value.",
     technique="Lean 4 proof (list/index-grid model, induction over patches) + differential correspondence + oracle search",
@@ -189,6 +190,42 @@ def evaluate(d, cfg, want_tables=False):
         k = int(np.nonzero(cover != 1)[0][0])
         fails.append((f"C19:interiors-tile:{'gap' if cover[k] == 0 else 'double-cover'}", f"base voxel {divmod(k, N1)} is covered {int(cover[k])} times by the patch interiors",
                       {"voxel": list(divmod(k, N1)), "count": int(cover[k])}))
+    # --- position(i, j): first patch left / bottom, last patch (if there are at least two) right / top, others internal
+    for (i, j) in {(0, 0), (n0 - 1, n1 - 1), (n0 // 2, n1 // 2)}:
+        r = call(p.position, i, j)
+        want_pos = ("left" if i == 0 else "right" if i == n0 - 1 else "internal", "bottom" if j == 0 else "top" if j == n1 - 1 else "internal")
+        if isinstance(r, Raised) or tuple(r) != want_pos:
+            fails.append(("C19:position", f"position({i},{j}) of {n0}x{n1} patches = {r!r}, documented {want_pos}", {"patch": [i, j]}))
+    # --- float path of the overlap: ov = ceil of the float quotient (rel * (D/n)) / (D/N); exact value x = rel * N / n
+    for a in range(2):
+        Df, relf = float(cfg["dims"][a]), float(cfg["rel"])
+        qf = (relf * (Df / cfg["n"][a])) / (Df / cfg["N"][a])  # the float operations of Patches.__init__ / num_voxels, in their order
+        x = ex[a][1]
+        if x != 0:
+            info["ov_quotient_rel_err"] = max(info.get("ov_quotient_rel_err", 0.0), float(abs(frac(qf) - x) / x))
+        if x.denominator == 1 and x != 0:
+            info["ov_breakpoints"] = info.get("ov_breakpoints", 0) + 1
+            if ov[a] != int(x):
+                info["ov_float_off_by_one_at_breakpoint"] = info.get("ov_float_off_by_one_at_breakpoint", 0) + 1
+    # --- set_image: a patch replaced by new data of the same shape is what assemble() then places at the patch's interior
+    if pieces_ok and n0 * n1 > 0:
+        i0, j0 = (N0 * 7 + n1) % n0, (N1 * 5 + n0) % n1
+        P0 = p(i0, j0)
+        if P0.img.size:
+            new = -1.0 - np.asarray(P0.img, dtype=float)
+            r = call(p.set_image, new, i0, j0)
+            A2 = call(p.assemble)
+            rel0 = p.relative_rois_without_overlap[i0][j0]
+            want = np.asarray(img.img, dtype=float).copy()
+            r0_, r1_ = i0 * pv[0], min((i0 + 1) * pv[0], N0)
+            c0_, c1_ = j0 * pv[1], min((j0 + 1) * pv[1], N1)
+            want[r0_:r1_, c0_:c1_] = new[rel0]
+            if isinstance(r, Raised) or isinstance(A2, Raised) or not np.array_equal(np.asarray(A2.img, dtype=float), want):
+                fails.append(("C19:set_image-then-assemble", f"after set_image on patch ({i0},{j0}) assemble() is not the base with the patch's interior [{r0_}:{r1_}, {c0_}:{c1_}] replaced ({r!r})", {"patch": [i0, j0]}))
+            bad = call(p.set_image, np.zeros((P0.img.shape[0] + 1,) + P0.img.shape[1:]), i0, j0)
+            if not isinstance(bad, Raised):
+                fails.append(("C19:set_image:accepts-wrong-shape", "set_image accepted an array of a different shape", {"patch": [i0, j0]}))
+            call(p.set_image, np.asarray(P0.img).copy() * 0 + (-1.0 - new), i0, j0)  # restore
     # --- assemble
     A = call(p.assemble)
     if isinstance(A, Raised):
@@ -284,6 +321,13 @@ def correspondence_lines(ctx, d, cfg, tables, info, lines, impl):
         impl.append(grid_str(decode(cfg, P.img)))
         lines.append(f"piece {A} {i} {j}")
         impl.append(grid_str(decode(cfg, P.img[p.relative_rois_without_overlap[i][j]])))
+    # position(i, j), num_patches and the iteration order of the public tables
+    for (i, j) in sorted({(0, 0), (n0 - 1, n1 - 1), (ctx.rng.randrange(n0), ctx.rng.randrange(n1))}):
+        r = call(p.position, i, j)
+        lines.append(f"position {n0} {n1} {i} {j}")
+        impl.append(repr(r) if isinstance(r, Raised) else f"{r[0]} {r[1]}")
+    lines.append(f"order {n0} {n1}")
+    impl.append(" ; ".join(f"{i} {j}" for i in range(len(p.patches)) for j in range(len(p.patches[i]))) if list(p.num_patches) == [n0, n1] else f"!num_patches{p.num_patches}")
     a = call(p.assemble)
     lines.append(f"assemble {A}")
     impl.append(repr(a) if isinstance(a, Raised) else grid_str(decode(cfg, a.img)))
@@ -322,7 +366,7 @@ def image_patch_cases(ctx, d, lines, impl):
         n = [rng.randint(1, 4) for _ in range(2)]
         rel = rng.choice([0, 0.125, 0.25, 0.5])
         p = call(d.Patches, img, n, rel_overlap=rel)
-        C = 2 if r["vector"] else 1
+        C = "1 2" if r["vector"] else "0"
         root = c02.root_tokens(r, origin)
         ctx.count(("image-patch", kind, json.dumps(r), n, rel))
         if kind in ("series", "3d"):
@@ -403,6 +447,10 @@ def run(ctx):
         dist["with-overlap"] += cfg["rel"] > 0
         dist["colour"] += cfg["colour"]
         dist["not-buildable"] += "not_buildable" in info
+        for key in ("ov_breakpoints", "ov_float_off_by_one_at_breakpoint"):
+            dist[key] = dist.get(key, 0) + info.get(key, 0)
+        if cfg["regime"] == "general":
+            dist["ov_quotient_max_rel_err"] = max(dist.get("ov_quotient_max_rel_err", 0.0), info.get("ov_quotient_rel_err", 0.0))
         if "pv" in info:
             dist["empty-patches"] += any((cfg["n"][a] - 1) * info["pv"][a] >= cfg["N"][a] for a in range(2))
         for sig, what, det in fails:
